@@ -18,7 +18,7 @@ type Case struct {
 	Holder  *Message
 }
 
-var Contexts = []string{"top", "nested", "flattened", "arm-message", "array-element", "map-value", "oneof-arm-scalar", "exposed-oneof", "odd-name"}
+var Contexts = []string{"top", "nested", "flattened", "arm-message", "array-element", "map-value", "oneof-arm-scalar", "exposed-oneof", "odd-name", "plain-oneof-named-type"}
 
 func labelsFor(k Kind) []Label {
 	switch k {
@@ -52,6 +52,9 @@ func SingleFieldCases() []*Case {
 			for _, ctx := range Contexts {
 				if (ctx == "oneof-arm-scalar" || ctx == "exposed-oneof") && l != Single {
 					continue
+				}
+				if ctx == "plain-oneof-named-type" && (k == KObject || k == KFlatten) {
+					continue // would share the Sub declaration / flatten into the same names
 				}
 				if ctx == "oneof-arm-scalar" && k == KFlatten {
 					continue
@@ -116,6 +119,17 @@ func buildContext(k Kind, l Label, ctx string) *Case {
 		wf.Msg = w
 		root = &Message{Name: "T", Fields: []*Field{wf}, Full: true}
 		holder = w
+	case "plain-oneof-named-type":
+		// a proto oneof called "type" whose members are messages, not exposed, next to an ordinary
+		// field: an object with three ordinary members, NOT a oneof wrapper
+		arm := F("arm_one", 2, KObject, Single)
+		arm.Msg = NewSub()
+		arm.PlainGroup = "type"
+		arm2 := F("arm_two", 3, KObject, Single)
+		arm2.Msg = &Message{Name: "Alt", Fields: []*Field{F("z_val", 1, KBool, Single)}}
+		arm2.PlainGroup = "type"
+		root = &Message{Name: "T", Fields: []*Field{f, arm, arm2}, Full: true}
+		holder = root
 	case "exposed-oneof":
 		f.Group = "choice"
 		alt := F("alt", 2, KString, Single)
